@@ -147,8 +147,10 @@ def run_spec(res, spec, ops, anp):
     except Exception as e:
         res["not_judged"]["oracle_error:" + type(e).__name__] = res["not_judged"].get("oracle_error:" + type(e).__name__, 0) + 1
         return
-    if not onp.isfinite(ref) or abs(ref) > 1e6:
-        res["not_judged"]["oracle_nonfinite"] = res["not_judged"].get("oracle_nonfinite", 0) + 1
+    if not onp.isfinite(ref) or S.max_intermediate() > 1e4:
+        # ill-scaled expression: float64 evaluation order effects (cancellation, overflow) exceed the 1e-9
+        # comparison tolerance; decided on the symbolic side only
+        res["not_judged"]["ill_scaled"] = res["not_judged"].get("ill_scaled", 0) + 1
         return
     ntr0 = len(PROBES.traces)
     try:
